@@ -8,6 +8,7 @@ import (
 	"encoding/json"
 	"fmt"
 	"os"
+	"os/exec"
 	"path/filepath"
 	"sort"
 	"strings"
@@ -68,6 +69,9 @@ type Spec struct {
 	Budget   time.Duration
 	Variants []Variant
 	Native   bool
+	// NativeStability re-runs the native reference under several GOMAXPROCS settings; an unstable reference means
+	// the generator produced a program that is not deterministic by construction (exit 2, never a VIOLATION).
+	NativeStability bool
 	// NativePrepare, if set, returns the files of the native reference build given what the GopherJS runs
 	// showed (C10 aligns the order in which files are presented); default: the program as is.
 	NativePrepare func(p *Prog, o *Obs) (*Prog, error)
@@ -184,6 +188,16 @@ func (e *Engine) native(b *built) ([]string, int, error) {
 	if err != nil {
 		return nil, 0, &InfraError{"native reference: " + err.Error() + "\n" + out}
 	}
+	if e.spec.NativeStability {
+		for _, procs := range []string{"1", "4", "16", "2"} {
+			c := exec.Command(filepath.Join(b.dir, "native.bin"))
+			c.Env = append(os.Environ(), "GOMAXPROCS="+procs)
+			o2, _ := c.CombinedOutput()
+			if string(o2) != out {
+				return nil, 0, &InfraError{"generator bug: the native reference program is not deterministic (output differs under GOMAXPROCS=" + procs + ")"}
+			}
+		}
+	}
 	lines := strings.Split(strings.TrimRight(out, "\n"), "\n")
 	return lines, code, nil
 }
@@ -250,19 +264,31 @@ type failure struct {
 	tape    []int
 }
 
-// Run executes the batch and returns the process exit code.
+// Run executes the batch, writes the evidence file and returns the process exit code.
 func Run(spec Spec) int {
+	code, ev := RunCollect(spec)
+	if ev != nil {
+		if err := ev.Write(jbuild.VerifDir()); err != nil {
+			fmt.Fprintln(os.Stderr, err)
+			return 2
+		}
+	}
+	return code
+}
+
+// RunCollect executes the batch and returns the exit code and the evidence (nil on infrastructure trouble).
+func RunCollect(spec Spec) (int, *evidence.Evidence) {
 	start := time.Now()
 	e, err := Open(spec, spec.Workers)
 	if err != nil {
 		fmt.Fprintln(os.Stderr, err)
-		return 2
+		return 2, nil
 	}
 	defer e.Close()
 	kf, err := known.Load(e.Env.Verif)
 	if err != nil {
 		fmt.Fprintln(os.Stderr, err)
-		return 2
+		return 2, nil
 	}
 	counters := evidence.NewCounter()
 	progs := evidence.NewSet()
@@ -381,7 +407,7 @@ func Run(spec Spec) int {
 	wg.Wait()
 	if infra != nil {
 		fmt.Fprintln(os.Stderr, "infrastructure failure:", infra)
-		return 2
+		return 2, nil
 	}
 
 	sort.Slice(failures, func(a, b int) bool { return failures[a].caseIdx < failures[b].caseIdx })
@@ -432,7 +458,7 @@ func Run(spec Spec) int {
 		path, err := evidence.WriteReplay(e.Env.Verif, rp)
 		if err != nil {
 			fmt.Fprintln(os.Stderr, err)
-			return 2
+			return 2, nil
 		}
 		fmt.Printf("VIOLATION property=%s replay=%s\n", spec.Property, path)
 		fmt.Printf("  class=%s %s\n", mv.Class, mv.Message)
@@ -465,16 +491,12 @@ func Run(spec Spec) int {
 		},
 		Assumptions: spec.Assumptions,
 	}
-	if err := ev.Write(e.Env.Verif); err != nil {
-		fmt.Fprintln(os.Stderr, err)
-		return 2
-	}
 	fmt.Printf("%s %s: %d programs, %d runs, %d distinct schedules (%d with suspensions), %d violations, %d known findings hit, %d out-of-scope, %.1fs\n",
 		spec.Property, spec.Tier, progs.Len(), runs, schedules.Len(), nontrivial.Len(), violations, len(kids), outOfScope, wall)
 	if violations > 0 {
-		return 1
+		return 1, ev
 	}
-	return 0
+	return 0, ev
 }
 
 func head(l []string, n int) []string {
